@@ -25,8 +25,6 @@ structure Heap where
   live : Nat → Bool := fun _ => false   -- the live set
   trace : List Ev := []                 -- newest first
   bad : Option Bad := none              -- the first ownership violation
-  base : Nat := 0                       -- ghost: ids below `base` belong to other owners (parser, body reader)
-  snap : Nat → Bool := fun _ => false   -- ghost: their liveness when the current owner started
 
 namespace Heap
 
